@@ -355,16 +355,17 @@ def r5_slave_failure(ck, cx):
     for fe in FRONTENDS:
         cls, f, sendf, fps = frontend_exec_paths(cx, fe)
         ck.saw('functions', f.qn)
-        anyexc = [fp for fp in fps if fp.handler == 'AnyException' and not (fp.flags.get('broadcast_enable') and fp.flags.get('unit0'))]
+        anyexc = [fp for fp in fps if fp.raise_site == 'execute' and fp.handler is not None
+                  and not (fp.flags.get('broadcast_enable') and fp.flags.get('unit0'))]
         ck.ob('R5', f.qn, 'an exception raised by request.execute is caught', bool(anyexc) and
-              not any(fp.exit == ('exc', 'AnyException') for fp in fps),
+              not any(fp.raise_site == 'execute' and fp.exit and fp.exit[0] == 'exc' for fp in fps),
               detail='datastore-exception-escapes', loc=cx.floc(f),
               message='%s: an exception from request.execute() escapes execute()' % fe[0])
         for fp in anyexc:
             n += 1
-            ck.ob('R5', f.qn, 'datastore failure answered with exception 04', fp.response_kind == ('exception', EXC['SlaveFailure']),
-                  detail='slave-failure-code %r' % (fp.response_kind,), loc=cx.floc(f),
-                  message='%s answers a datastore failure with %r' % (fe[0], fp.response_kind))
+            ck.ob('R5', f.qn, 'datastore failure (%s) answered with exception 04' % fp.raised, fp.response_kind == ('exception', EXC['SlaveFailure']),
+                  detail='slave-failure-code %s %r' % (fp.raised if fp.raised != 'AnyException' else '', fp.response_kind), loc=cx.floc(f),
+                  message='%s answers a datastore failure (%s raised by request.execute) with %r' % (fe[0], fp.raised, fp.response_kind))
     ck.floor('R5', n, 7, 'datastore-failure paths over the 7 front-ends')
 
 
